@@ -133,6 +133,22 @@ func (w *c13world) exec(l *c13live, op c13op) string {
 		return fmt.Sprintf("%v %s", err != nil, b)
 	case 4:
 		cl := l.schemas[op.S].CloneSchemas()
+		if op.I%2 == 0 && cl != nil {
+			// the clone is the caller's own tree: edit it (field assignments, insertions into its
+			// schema-valued maps and slices) while other goroutines use the original
+			for _, n := range allSchemas(cl) {
+				n.Title = "edited clone"
+				if n.Properties != nil {
+					n.Properties["injected-into-clone"] = &jsonschema.Schema{Type: "null"}
+				}
+				if n.Defs != nil {
+					n.Defs["injected-into-clone"] = &jsonschema.Schema{}
+				}
+				if n.AllOf != nil {
+					n.AllOf = append(n.AllOf, &jsonschema.Schema{Title: "appended to clone"})
+				}
+			}
+		}
 		b, err := json.Marshal(cl)
 		return fmt.Sprintf("%v %s", err != nil, b)
 	case 5:
